@@ -200,7 +200,9 @@ func (e *Variable) Assign(newVal reflect.Value, dataContext IDataContext, memory
 		if e.Variable.ValueNode.IsArray() {
 			err := e.Variable.ValueNode.SetArrayValueAt(int(e.ArrayMapSelector.Value.Int()), newVal)
 			if err == nil {
-				memory.ResetVariable(e)
+				// the same element can be addressed with another selector text (a[i], a[0])
+				// and the container can be consumed whole (a.Len()): reset by the container.
+				memory.ResetVariable(e.Variable)
 			}
 
 			return err
@@ -208,7 +210,7 @@ func (e *Variable) Assign(newVal reflect.Value, dataContext IDataContext, memory
 		if e.Variable.ValueNode.IsMap() {
 			err := e.Variable.ValueNode.SetMapValueAt(e.ArrayMapSelector.Value, newVal)
 			if err == nil {
-				memory.ResetVariable(e)
+				memory.ResetVariable(e.Variable)
 			}
 
 			return err
